@@ -317,7 +317,9 @@ var (
 )
 
 // bounded waits are watchdogs only (30 s): timing never decides a verdict on a healthy run
-const waitMax = 30 * time.Second
+var waitMax = 30 * time.Second
+
+var hangs int // cases of this process whose 30 s watchdog expired
 
 func isChecker() bool {
 	buf := make([]byte, 8192)
@@ -754,6 +756,18 @@ func execX(spec string) (res string) {
 	return strings.Join(out, " ")
 }
 
+// once several cases have really waited out the 30 s watchdog, later cases get 3 s: a defect that wedges many cases
+// must not stall the whole run
+func countHang(res string) string {
+	if strings.Contains(res, "HANG") {
+		hangs++
+		if hangs >= 4 {
+			waitMax = 3 * time.Second
+		}
+	}
+	return res
+}
+
 func exec(op string) string {
 	f := strings.Fields(op)
 	if len(f) < 1 {
@@ -763,12 +777,12 @@ func exec(op string) string {
 	case "m":
 		return execM(f[1:])
 	case "g":
-		return vh.SafeTimeout(120*time.Second, func() string { return execG(f[1:]) })
+		return countHang(vh.SafeTimeout(120*time.Second, func() string { return execG(f[1:]) }))
 	case "x":
 		if len(f) != 2 {
 			return "bad-op"
 		}
-		return vh.SafeTimeout(120*time.Second, func() string { return execX(f[1]) })
+		return countHang(vh.SafeTimeout(120*time.Second, func() string { return execX(f[1]) }))
 	}
 	return "bad-op"
 }
